@@ -360,6 +360,34 @@ class Oracle:
         except Exception:
             return None
 
+    def year_turns(self, years):
+        """the query advancing across the turn of a year (31 Dec 18:00 / 23:45 -> 1 Jan 00:00 / 06:00): the fractional
+        year restarts there, so a wrong year length (leap years!) makes every finder jump back one month"""
+        Moon, Epoch = self.Moon, self.Epoch
+        for y in years:
+            try:
+                j1 = Epoch(y + 1, 1, 1.0).jde()
+            except Exception as ex:
+                self.add("epoch-raises", "Epoch(%d,1,1) raises %r" % (y + 1, ex), y, "print(Epoch(%d,1,1.0))" % (y + 1)); continue
+            qs = [j1 - 0.25, j1 - 0.01, j1, j1 + 0.25]
+            for (fn, tg, per, _) in FINDERS:
+                f = getattr(Moon, fn)
+                prev = None
+                for q in qs:
+                    self.n += 1
+                    try:
+                        res = f(Epoch(q), target=tg)
+                        rj = (res[0] if isinstance(res, tuple) else res).jde()
+                    except Exception as ex:
+                        self.add("finder-raises", "Moon.%s(Epoch(%r), %r) raises %r" % (fn, q, tg, ex), [fn, tg, q],
+                                 "print(Moon.%s(Epoch(%r), target=%r))" % (fn, q, tg)); prev = None; continue
+                    if prev is not None and rj < prev[0] - 1e-9:
+                        self.add("moves-backwards", "Moon.%s(.., %r) across the turn of the year %d/%d: query %r -> %r but the earlier query %r -> %r"
+                                 % (fn, tg, y, y + 1, q, rj, prev[1], prev[0]), [fn, tg, prev[1], q],
+                                 "print(Moon.%s(Epoch(%r), target=%r), Moon.%s(Epoch(%r), target=%r))" % (fn, prev[1], tg, fn, q, tg))
+                    prev = (rj, q)
+                self.nontriv += 1
+
     def leap_days(self):
         """29 Feb / 1 Mar / 31 Dec of Julian century years: totality of every finder and target"""
         Moon, Epoch = self.Moon, self.Epoch
@@ -444,6 +472,10 @@ def search(rng, tier, deep):
     full = deep or tier == "thorough"
     o.targets()
     o.leap_days()
+    # the turn of every leap year (and of sampled / all other years): never backwards across 31 Dec -> 1 Jan
+    Ep = mods["Epoch"].Epoch
+    turn_years = [y for y in range(-2000, 4000) if full or Ep.is_leap(y) or y % 13 == 0]
+    o.year_turns(turn_years)
     # positions: random epochs in -2000..4000 plus the ends
     npos = 1500 if full else 250
     js = [JD_LO, JD_HI - 1.0, 2451545.0] + [rng.uniform(JD_LO, JD_HI - 1.0) for _ in range(npos)]
